@@ -34,6 +34,15 @@ func (n *nodeMemberManager) NotifyGossipLeave(id uint64) {
 		if lwt != nil {
 			// the stored will carries the client's topic: it lives inside the session's mount point
 			lwt.Topic = append([]byte(session.MountPoint+"/"), lwt.Topic...)
+			if lwt.Header != nil && lwt.Header.Retain {
+				// as for any retained publish: keep it for later subscribers, deliver the live copy unflagged
+				if len(lwt.Payload) == 0 {
+					n.state.Topics().Delete(lwt.Topic)
+				} else {
+					n.state.Topics().Set(lwt)
+				}
+				lwt.Header.Retain = false
+			}
 			n.log.Append(lwt)
 		}
 	}
